@@ -29,3 +29,18 @@ Proof. intros A l k v. unfold nth_z. destruct (k <? Z.of_nat (length l)) eqn:E; 
 Theorem C09_registered_count : length gen_builtins = 77%nat.
 Proof. reflexivity. Qed.
 Print Assumptions C09_casts_in_range. Print Assumptions C09_string_index_nonneg.
+
+(* bounded memory, at model level: what the text and collection builtins return is bounded by a polynomial in the sizes of their arguments - every text, needle and replacement
+   (replace with an empty needle is the worst case: the replacement once before, between and after every character) *)
+Require Import Builtins SeqLaws SizeFacts.
+Theorem C09_replace_bounded : forall f n t s, (length (replace_sub f n t s) <= length s + S (length s) * length t)%nat.
+Proof. exact replace_len. Qed.
+Theorem C09_count_bounded : forall f n s, (count_sub f n s <= S (length s))%nat.
+Proof. exact count_len. Qed.
+Theorem C09_split_bounded : forall s sep, (length (split_str s sep) <= length s + 2)%nat /\ (sep <> [] -> (length (concat (split_str s sep)) <= length s)%nat).
+Proof. intros s sep. split; [apply split_pieces | apply split_total_size]. Qed.
+Theorem C09_unique_bounded : forall l, (length (uniq [] l) <= length l)%nat.
+Proof. intros l. apply uniq_len. Qed.
+Example C09_replace_worst_case : length (replace_sub 4 [] [120;121]%N [97;98;99]%N) = (3 + 4 * 2)%nat.
+Proof. reflexivity. Qed.
+Print Assumptions C09_replace_bounded.
